@@ -84,6 +84,9 @@ type Grp struct {
 	Hidden     bool
 	Ptr        bool // declared as pointer-to-struct field
 	ByAddGroup bool // attached with Command.AddGroup instead of a group: tag
+	// Inline: a struct-typed (or pointer-to-struct) field WITHOUT a group tag: its option fields belong to the
+	// enclosing group (same section, same heading, same namespace) - the usual way of sharing common options
+	Inline bool
 	// Late: registered with AddGroup after the parser was built (and possibly used); LateVia "command" =
 	// Parser/Command.AddGroup on the owning command, "group" = Group.AddGroup on the parent group
 	Late    bool
@@ -295,8 +298,20 @@ func (o *Opt) Tag() string {
 	return sb.String()
 }
 
+// Owner returns the group whose flags.Group holds g's options: g itself, or the nearest enclosing group that
+// is not inline.
+func (g *Grp) Owner() *Grp {
+	for g.Inline && g.Parent != nil {
+		g = g.Parent
+	}
+	return g
+}
+
 func (g *Grp) Tag() string {
 	var sb strings.Builder
+	if g.Inline {
+		return ""
+	}
 	tagKV(&sb, "group", g.Desc)
 	if g.LongDesc != "" {
 		tagKV(&sb, "description", g.LongDesc)
@@ -895,6 +910,9 @@ func (d *Decl) Describe() interface{} {
 		m := map[string]interface{}{}
 		if g.Desc != "" {
 			m["group"] = g.Desc
+		}
+		if g.Inline {
+			m["untagged_struct_field"] = g.Field
 		}
 		if g.Namespace != "" {
 			m["namespace"] = g.Namespace
